@@ -250,7 +250,9 @@ func (ts *TS) analyze(fn *ssa.Function, key ssa.Value, entry uint32) (sites []TS
 				} else if sf := StaticFn(ci); sf != nil {
 					mut = ts.mutators[sf]
 					if _, isClosure := cc.Value.(*ssa.MakeClosure); isClosure {
-						mut = true
+						// a local closure changes statuses if its body can (one level; anything it
+						// cannot see through counts as a change)
+						mut = ts.closureMayMutate(sf)
 					}
 				} else if _, isBuiltin := cc.Value.(*ssa.Builtin); !isBuiltin {
 					mut = true // dynamic call through a function value
@@ -364,4 +366,44 @@ func (ts *TS) SiteString(s TSite) string {
 		eff = "(effective)"
 	}
 	return fmt.Sprintf("%s%s -> %s", ts.SetString(s.From), eff, to)
+}
+
+// closureMayMutate: the body of the local closure contains a call that may change a task status:
+// a known mutator, a call through a function value or an interface, or another closure.
+func (ts *TS) closureMayMutate(cl *ssa.Function) bool {
+	if ts.mutators[cl] {
+		return true
+	}
+	for _, b := range cl.Blocks {
+		for _, in := range b.Instrs {
+			ci, ok := in.(ssa.CallInstruction)
+			if !ok {
+				continue
+			}
+			cc := ci.Common()
+			switch {
+			case cc.IsInvoke():
+				if _, isErr := cc.Value.Type().Underlying().(*types.Interface); isErr && cc.Method.Name() == "Error" {
+					continue
+				}
+				return true
+			case StaticFn(ci) != nil:
+				sf := StaticFn(ci)
+				if ts.mutators[sf] {
+					return true
+				}
+				if _, isClosure := cc.Value.(*ssa.MakeClosure); isClosure {
+					return true
+				}
+			default:
+				if _, isBuiltin := cc.Value.(*ssa.Builtin); !isBuiltin {
+					if ts.PureDyn != nil && ts.PureDyn(ci) {
+						continue
+					}
+					return true
+				}
+			}
+		}
+	}
+	return false
 }
